@@ -44,6 +44,8 @@ Sensitivity (quick tier, seed 1, one textual mutation at a time on a scratch cop
     by a failing input; and behaviourally by the two/three-iterator histories: C36.wait.next_raised KeyError,
     C36.wait.done_false_after_last, C36.wait.yielded_foreign_input).  Earlier version: exit 2 (state leaking between
     cases made Hypothesis report the check as flaky); every case now starts by resetting the class-level table.
+  * seeded C36-8 (round 8): WaitIterator copies a cancelled input inline instead of through chain_future
+                                                                        -> caught at seed 1 (C36.pending.wait)
   * with_timeout: remove the deadline timer only when the input succeeded (DESIGN's third mutant)
                                                                         -> NOT caught, by construction: the leftover
     timer finds `result.done()` and does nothing but log a spurious "after timeout" line; no clause of the
